@@ -1502,6 +1502,11 @@ func ParseByteRange(byteRange []byte, contentLength int) (startPos, endPos int, 
 		if contentLength <= 0 {
 			return 0, 0, fmt.Errorf("byte range %q is invalid for empty content", byteRange)
 		}
+		if v == 0 {
+			// RFC 9110 section 14.1.3: a suffix range with a zero suffix
+			// length is unsatisfiable.
+			return 0, 0, fmt.Errorf("zero-length suffix byte range %q is unsatisfiable", byteRange)
+		}
 		startPos := max(contentLength-v, 0)
 		return startPos, contentLength - 1, nil
 	}
